@@ -28,7 +28,7 @@ def gen_case(rng, tier, idx):
     dw = rng.choice([8, 16, 32, 64])
     gran = rng.choice([g for g in (8, 16, 32, 64) if g <= dw])
     ratio = dw // gran
-    sizes = [s for s in (2, 4, 8, 16, 32, 64, 128, 256) if s * gran >= dw]
+    sizes = [s for s in (2, 4, 8, 16, 32, 64, 128, 256, 1024) if s * gran >= dw]
     size = rng.choice(sizes[:5] if rng.random() < 0.7 else sizes)
     depth = size * gran // dw
     n_init = rng.choice([0, depth, rng.randint(0, depth)])
